@@ -14,9 +14,9 @@ EXPLANATION = (
     "the CURIE / canonical URI of parse(s), the *_strict variants behave as the strict=True calls. An exception escaping "
     "expand in default mode is C08's subject and is treated here as 'no result'.")
 BOUNDS = dict(records="<= 3", synonyms_per_side="<= 1", strings="unbounded, full z3 alphabet", delimiter="':' and symbolic")
-OUTSIDE = ["more than 3 records", "non-strict converters", "CURIE prefixes that contain the delimiter"]
+OUTSIDE = ["more than 3 records", "non-strict converters"]
 ASSUMPTIONS = ["pytrie longest-prefix contract stub", "pydantic BaseModel stub (validator bodies real)",
-               "strict converter precondition", "no CURIE prefix contains the delimiter"]
+               "strict converter precondition"]
 
 SHAPES = [
     ("agree", [[1, 1]], False, Q), ("agree", [[1, 1]], True, Q), ("agree", [[0, 0], [0, 0]], False, Q),
@@ -45,7 +45,9 @@ def build(job):
 
     def run(eng):
         api = eng.mods.api
-        recs, delim, c = fixture(eng, params)
+        # the statement does not restrict the registered prefixes: they may contain the delimiter (the CURIE side is
+        # still well defined because the string is split at its first delimiter into (P, I))
+        recs, delim, c = fixture(eng, params, prefixes_without_delim=False)
         d = _s(delim)
         if eng.flag("has_delim"):
             P, I = eng.var("P"), eng.var("I")
